@@ -112,6 +112,9 @@ class Views:
             req = [k for o in objs for k in o.get("required", [])]
             if which == "deserialization" and sorted(r for r in req if r in names) != sorted(required):
                 return Failure("schema-required", witness=None, extra={"required": req, "external": required})
+            bad = self.default_keys(sch, sch)
+            if bad:
+                return Failure(f"{which}-schema-default-keys", witness=None, extra={"default": bad[0], "properties": bad[1]})
             dr = {k: v for o in objs for k, v in o.get("dependentRequired", {}).items()}
             exp_dr = {}
             for fname, needed in root.opt("dependent_required", ()):
@@ -135,6 +138,30 @@ class Views:
             return None  # '$' is not a legal GraphQL name: the model is not GraphQL-compatible
         if sorted(gnames) != sorted(exp):
             return Failure("graphql-field-names", witness=None, extra={"graphql": gnames, "external": exp})
+        return None
+
+    def default_keys(self, root, node):
+        """an object-valued `default` shows the fields of the object under the names its own
+        schema declares (one external name in every view)"""
+        if isinstance(node, list):
+            for v in node:
+                bad = self.default_keys(root, v)
+                if bad:
+                    return bad
+            return None
+        if not isinstance(node, dict):
+            return None
+        target = node
+        if "$ref" in target:
+            target = root.get("$defs", {}).get(str(target["$ref"]).rsplit("/", 1)[-1], {})
+        if isinstance(node.get("default"), dict) and "properties" in target and not target.get("patternProperties") and target.get("additionalProperties", False) is False:
+            if not set(node["default"]) <= set(target["properties"]):
+                return node["default"], sorted(target["properties"])
+        for k, v in node.items():
+            if k != "default":
+                bad = self.default_keys(root, v)
+                if bad:
+                    return bad
         return None
 
     def flat_names(self, root):
